@@ -30,8 +30,20 @@ Ctab   == {"none", "b"}
 Having == {"none", "f"}
 Order  == {"none", "fdesc", "a_time", "timedesc_f"}
 Lim    == {"none", "l2", "l2o1"}
-From   == {"t", "sub_ab", "sub_a", "sub_ord"}
+\* FROM: the table, an ordered and limited sub-query, or a chain of one or two nested
+\* grouping sub-queries (chain[1] is the outermost, "all" = no GROUP BY = every dimension
+\* of the level below)
+Lvl    == {"all", "a", "b", "ab"}
+LDims(g) == CASE g = "all" -> {} [] g = "a" -> {"a"} [] g = "b" -> {"b"} [] g = "ab" -> {"a", "b"}
+\* dimensions a chain exposes to the query above it (the table is taken to expose all)
+RECURSIVE Exp(_)
+Exp(ch) == IF ch = <<>> THEN {"a", "b", "c"} ELSE IF Head(ch) = "all" THEN Exp(Tail(ch)) ELSE LDims(Head(ch))
+RECURSIVE ValidChain(_)
+ValidChain(ch) == ch = <<>> \/ (LDims(Head(ch)) \subseteq Exp(Tail(ch)) /\ ValidChain(Tail(ch)))
+Chains == {ch \in {<<g>> : g \in Lvl} \cup {<<g, h>> : <<g, h>> \in Lvl \X Lvl} : ValidChain(ch)}
+From   == {[kind |-> "t", chain |-> <<>>], [kind |-> "ord", chain |-> <<>>]} \cup {[kind |-> "chain", chain |-> ch] : ch \in Chains}
 
+GDims(gb) == CASE gb \in {"all", "none"} -> {} [] gb = "a" -> {"a"} [] gb = "b" -> {"b"} [] gb = "lossy" -> {"b"} [] OTHER -> {"a", "b"}
 Desc == [sel : Sel, where : Where, gb : GroupB, period : Period, ctab : Ctab, having : Having,
          order : Order, lim : Lim, from : From]
 
@@ -39,10 +51,13 @@ Desc == [sel : Sel, where : Where, gb : GroupB, period : Period, ctab : Ctab, ha
 \* statement does not fix
 Valid(q) ==
   /\ (q.ctab # "none" => q.sel # "star" /\ q.order = "none")              \* crosstab renames the fields
-  /\ (q.gb = "lossy" => q.from = "t")
-  /\ (q.order = "a_time" => q.gb \in {"all", "a", "ab"} /\ q.from \in {"t", "sub_ab"})  \* the sort key exists
-  /\ (q.from # "t" => q.where \in {"none", "eq"} /\ q.sel # "pts")
-  /\ (q.from = "sub_a" => q.gb \in {"all", "a", "none"} /\ q.where = "none")
+  /\ (q.gb = "lossy" => q.from.kind = "t")
+  /\ (q.order = "a_time" => q.gb \in {"all", "a", "ab"} /\ (q.from.kind = "t" \/ q.from.chain = <<"ab">>))  \* the sort key exists
+  /\ (q.from.kind # "t" => q.where \in {"none", "eq"} /\ q.sel # "pts")
+  \* the query only names dimensions its FROM exposes
+  /\ (q.from.kind = "chain" => /\ GDims(q.gb) \subseteq Exp(q.from.chain)
+                               /\ (q.where = "eq" => "b" \in Exp(q.from.chain))
+                               /\ (q.ctab = "b" => "b" \in Exp(q.from.chain)))
   /\ (q.sel = "star" => q.having = "none")
 
 PKs == {{}, {"a"}, {"b"}, {"a", "b"}}                   \* partitionBy of the table
@@ -60,14 +75,16 @@ GbParams(gb, avail) == CASE gb = "all" -> avail
                          [] gb = "expr" -> {}              \* CONCAT('_', a, b) is not one-to-one
                          [] gb = "lossy" -> {}             \* SUBSTR(b, 0, 1): several values of b share a group
                          [] gb = "none" -> {}
+\* ... through the chain of sub-queries, innermost first
+RECURSIVE ChainParams(_, _)
+ChainParams(ch, avail) == IF ch = <<>> THEN avail ELSE GbParams(Head(ch), ChainParams(Tail(ch), avail))
 InnerParams(q, tg) ==
-  CASE q.from = "t" -> GbParams(q.gb, TableDims(tg))
-    [] q.from = "sub_ab" -> GbParams(q.gb, {"a", "b"} \cap TableDims(tg))
-    [] q.from = "sub_a" -> GbParams(q.gb, {"a"})
-    [] q.from = "sub_ord" -> {}                             \* the sub-query is ordered and limited
+  CASE q.from.kind = "t" -> GbParams(q.gb, TableDims(tg))
+    [] q.from.kind = "chain" -> GbParams(q.gb, ChainParams(q.from.chain, TableDims(tg)))
+    [] q.from.kind = "ord" -> {}                            \* the sub-query is ordered and limited
 Confined(q, pk, tg) == EffPK(pk) \subseteq InnerParams(q, tg)
 \* the planner may push q down whole only if ...
-PushdownSound(q, pk, tg) == q.ctab = "none" /\ q.from # "sub_ord" /\ Confined(q, pk, tg)
+PushdownSound(q, pk, tg) == q.ctab = "none" /\ q.from.kind # "ord" /\ Confined(q, pk, tg)
 
 ValidDescs == {q \in Desc : Valid(q)}
 Kept == LET s == SetToSeq(ValidDescs) IN SelectSeq([i \in DOMAIN s |-> [i |-> i, q |-> s[i]]], LAMBDA x : x.i % Sample = Offset % Sample)
